@@ -589,7 +589,10 @@ def c15(tier, rng):
     res.rule = "pairs (A, B) of accepted streams from the suite, line soups and soups, A ending in a line break; 3- and 4-tuples; non-trivial = both streams contain a document; distinct by (A, B)"
     res.corr_ops = ['evt str on A ++ "...\\n" ++ B']
     pool_src = [r['yaml'] for r in load_suite() if not r['fail']] + line_soups(rng.fork('l'), 3000 if tier == 'quick' else 30000) + soups(rng.fork('s'), 3000 if tier == 'quick' else 30000, 10)
-    pool_src += ['|\n', '- |\n', 'a: |+\n\n', '- >\n', '--- |\n', 'k: |\n  x\n', '&a x\n', '- &b y\n- *b\n', '%TAG !e! tag:e,\n--- !e!x 1\n', '%YAML 1.2\n---\na\n']
+    import render as _R
+    _rr = rng.fork('render')
+    pool_src += [_R.render_stream(_rr)[0] for _ in range(3000 if tier == 'quick' else 40000)]
+    pool_src += ['{ ? a : b }\n', '[ ? a ]\n', '[ : y ]\n', '- [ ? a, : y ]\n', '|\n', '- |\n', 'a: |+\n\n', '- >\n', '--- |\n', 'k: |\n  x\n', '&a x\n', '- &b y\n- *b\n', '%TAG !e! tag:e,\n--- !e!x 1\n', '%YAML 1.2\n---\na\n']
     impl0 = run_impl([f'evt str 128 0 {hx(t)}' for t in pool_src])
     # a NUL is the Input contract's end-of-input signal: a text with an embedded NUL is not a stream that can be continued
     pool = [(t, ev_full(l)[0]) for t, l in zip(pool_src, impl0) if l.endswith(' ; DONE') and '\0' not in t]
@@ -2071,9 +2074,13 @@ def c04(tier, rng):
             if style == 'P' and not R.plain_allowed(tg_, flow, key):
                 style = 'D'
             ci = {'top': 1, 'value': 2, 'item': 2, 'key': 0, 'flowitem': 1, 'flowkey': 0, 'flowvalue': 2}[ctx]
+            if ctx == 'top' and style in 'DS' and r.chance(1, 2):
+                ci = 0          # at the top level a quoted scalar may continue in column 0
             pres = R.present_scalar(r, tg_, style, ci, multiline=not key)
             if pres is None:
                 continue
+            if ci == 0 and any(l.startswith(('---', '...')) for l in pres.split('\n')[1:]):
+                continue        # … unless the line would read as a document marker
             if style == 'P' and flow and any(c in pres for c in ',[]{}'):
                 continue
             if key and len(pres) > 1000:
